@@ -672,7 +672,10 @@ def _insert_nodes(source: str, additions: Collection[ast.AST]) -> str:
     Returns:
         str: Code with added asts.
     """
-    lines = source.splitlines(keepends=True)
+    # node.lineno counts lines like the python parser does. str.splitlines() also splits at form
+    # feeds, U+2028 and more, which puts every insertion after such a character on the wrong line.
+    lines = core.split_lines(source)
+    newline = core.line_terminator(source)
 
     for node in sorted(additions, key=lambda n: n.lineno, reverse=True):
         addition = core.unparse(node)
@@ -681,9 +684,11 @@ def _insert_nodes(source: str, additions: Collection[ast.AST]) -> str:
         logger.debug("Adding:\n{new}", new=addition)
         lines = (
             lines[: node.lineno]
-            + ["\n"]
-            + [indent + line for line in addition.splitlines(keepends=True)]
-            + ["\n"] * (not addition.endswith("\n"))
+            + [newline]
+            + [
+                indent + core.strip_line_terminator(line) + newline
+                for line in core.split_lines(addition)
+            ]
             + lines[node.lineno :]
         )
     return "".join(lines)
